@@ -319,9 +319,33 @@ def judge_lookup(tc, bg):
     return out
 
 
+def _lookup_sweep(order):
+    out = {}
+    for tc in order:
+        msg = frame(tc, [], 0, keepset())
+        out[(tc, "p")] = repr(call(pms.adsb.nuc_p, msg))
+        for nics in (0, 1):
+            out[(tc, "1", nics)] = repr(call(pms.adsb.nic_v1, msg, nics))
+        for a in (0, 1):
+            for b in (0, 1):
+                out[(tc, "2", a, b)] = repr(call(pms.adsb.nic_v2, msg, a, b))
+    return out
+
+
 def w_lookups(_):
     acc = Acc()
     rows_p, rows_1, rows_2 = {}, {}, {}
+    # this task runs in a fresh child process: the first sweep (descending TC) sees the pristine tables
+    first = _lookup_sweep(sorted(NUCP_BY_TC, reverse=True))
+    gn0 = {}
+    for tc in (22, 21, 20):
+        r = call(pms.adsb.nuc_p, frame(tc, [], 0, keepset()))
+        if r[0] == "ok":
+            gn0[r[1][0]] = r[1][3]
+    for lo, hi in itertools.combinations(sorted(gn0), 2):
+        acc.n += 1
+        if not tighter_or_equal(gn0[hi], gn0[lo]):
+            acc.bad("nuc_p:higher_category_looser_bound", {"kind": "lookup", "tc": -1, "bg": 0, "cats": [lo, hi], "scale": "RCv"})
     for tc in NUCP_BY_TC:
         for bg in BGS:
             acc.n += 7
@@ -341,6 +365,16 @@ def w_lookups(_):
                 if r[0] == "ok" and r[1][0] is not None:
                     rows_2.setdefault(r[1][0], set()).add(r[1][1])
         acc.out.add(("lookup", tc))
+    # the look-ups are pure tables: after everything above has run, ascending and descending sweeps must still give the
+    # answers of the very first sweep
+    for order in (sorted(NUCP_BY_TC), sorted(NUCP_BY_TC, reverse=True)):
+        again = _lookup_sweep(order)
+        acc.n += len(again)
+        for k_ in first:
+            if first[k_] != again[k_]:
+                acc.bad("%s:result_depends_on_previous_calls" % {"p": "nuc_p", "1": "nic_v1", "2": "nic_v2"}[k_[1]],
+                        {"kind": "lookup", "tc": -1, "bg": 0, "key": list(k_), "first": first[k_], "later": again[k_]})
+                break
     # order: worst bound of category k+1 <= best bound of category k
     for name, rows in (("nuc_p", {k: {x[0] for x in v} for k, v in rows_p.items()}), ("nic_v1", rows_1), ("nic_v2", rows_2)):
         ks = sorted(rows)
